@@ -144,7 +144,7 @@ def main():
     excluded = []
     total = 0
     for f in FILES:
-        src = open(os.path.join(REPO, "src", f)).read()
+        src = open(os.path.join(REPO, "src", f), encoding="latin-1").read()
         table_funcs = set(re.findall(r'\(spif_func_t\)\s*(\w+)', src))
         defs = parse_defs(src)
         units = []
